@@ -171,12 +171,15 @@ func RunDeterminism(fam *Family, tier, rule string) int {
 		return infra(prop, err)
 	}
 	cfg := "SPECIFICATION Spec\nCONSTANTS\n  Schemas <- SchemasDef\n  MapIds <- MapIdsDef\n  PkgOf <- PkgOfDef\n  OutOf <- OutOfDef\n  Props <- PropsDef\n  Exts <- ExtsDef\n  Cands <- CandsDef\n  D = {}\nINVARIANT OrderIndependent\nCHECK_DEADLOCK FALSE\n"
-	mc, err := tlc.Run(tlc.Opts{Module: "MC_MapOrder", Cfg: cfg, Dir: filepath.Join(sc.Dir, "tlc-mo"), Workers: 4, Timeout: 5 * time.Minute, HeapGB: 2})
+	mc, err := tlc.Run(tlc.Opts{Module: "MC_MapOrder", Cfg: cfg, Dir: filepath.Join(sc.Dir, "tlc-mo"), Workers: 4, Timeout: 5 * time.Minute, HeapGB: 2, Coverage: true})
 	if err != nil {
 		return infra(prop, err)
 	}
 	if mc.Failed || mc.InvViolated != "" {
 		return infra(prop, fmt.Errorf("MapOrder model violates OrderIndependent\n%s", mc.Tail))
+	}
+	if _, err := vacuity(prop, mc.Actions); err != nil {
+		return infra(prop, err)
 	}
 	units, mcu, err := Enumerate(fam, sc, devs, tier)
 	if err != nil {
